@@ -109,6 +109,8 @@ func runParam(c paramCase) (o paramObs) {
 		env.Set("IFS", "")
 	case "mb":
 		env.Set("IFS", "\u00e9,") // the first character takes two bytes
+	case "digit":
+		env.Set("IFS", "12") // the digits of the lengths and counts
 	default:
 		env.Unset("IFS")
 	}
